@@ -40,7 +40,10 @@ def _cvc5(smt2: str, timeout_s: int):
     try:
         r = subprocess.run(["/usr/bin/cvc5", "--tlimit", str(timeout_s * 1000), path], capture_output=True, text=True, timeout=timeout_s + 5)
         out = r.stdout.strip().splitlines()
-        return out[0] if out else "unknown"
+        first = out[0] if out else "unknown"
+        if first not in ("sat", "unsat", "unknown"):
+            return "input-not-accepted"  # cvc5 1.0.3 rejects some of z3's SMT-LIB output (e.g. model-style `val` arguments): not decided by this back end
+        return first
     except Exception:
         return "unknown"
     finally:
